@@ -16,11 +16,15 @@ typedef struct {
   int wakes;        /* wake(1) calls performed */
   int parks;        /* parks performed */
   int yields;
+ int curm;
 } ghost_t;
 
 fiber_mutex_t M;
 ghost_t G;
-fiber_manager_t VM0;
+fiber_manager_t VM0, VM1;
+/* the kernel thread the calling fiber is on: any callee that can yield (park, wake - it yields while the waiter is not enqueued yet -, yield) may
+   bring it back on another one.  G.curm is mentioned in no postcondition of a callee, so every such call leaves it arbitrary. */
+#define CURM ((G.curm & 1) ? &VM1 : &VM0)
 #define CUR_C (*(int*)&M.counter)
 
 #include "src/fiber_mutex.c" /* woven real code */
@@ -59,8 +63,8 @@ static void spec_read(int site, void* addr) {}
 
 /* ---- predicates for contracts --------------------------------------------------------------- */
 static int counters_zero(void) { return G.decs == 0 && G.incs == 0 && G.fast == 0 && G.handoffs == 0 && G.owed == 0 && G.wakes == 0 && G.parks == 0 && G.yields == 0; }
-static int PRE_idle(void) { return G.mode == IDLE && counters_zero() && mx_inv(CUR_C, G.a, G.mode) && G.lastc == CUR_C; }
-static int PRE_hold(void) { return G.mode == HOLD && counters_zero() && mx_inv(CUR_C, G.a, G.mode) && G.lastc == CUR_C; }
+static int PRE_idle(void) { return G.curm == 0 && G.mode == IDLE && counters_zero() && mx_inv(CUR_C, G.a, G.mode) && G.lastc == CUR_C; }
+static int PRE_hold(void) { return G.curm == 0 && G.mode == HOLD && counters_zero() && mx_inv(CUR_C, G.a, G.mode) && G.lastc == CUR_C; }
 /* lock: returns holding; acquired at once iff its decrement saw 1, otherwise announced itself and parked exactly once */
 static int POST_lock(int ret) {
   return ret == FIBER_SUCCESS && G.mode == HOLD && G.decs == 1 && G.incs == 0 && G.parks == 1 - G.fast && G.owed == 0 &&
@@ -83,13 +87,13 @@ static int POST_unlock(int ret) {
 }
 /* park (fiber_manager_wait_in_mpsc_queue on the mutex's wait list): callable only after announcing; returns when a
    hand-off designated me (RESUME); anything the rely allows happened meanwhile */
-static int PRE_park(fiber_manager_t* m, mpsc_fifo_t* q) { return m == &VM0 && q == &M.waiters && G.mode == ANN; }
+static int PRE_park(fiber_manager_t* m, mpsc_fifo_t* q) { return m == CURM && q == &M.waiters && G.mode == ANN; }
 static int POST_park(ghost_t o) {
   return G.mode == HOLD && mx_inv(CUR_C, G.a, G.mode) && G.lastc == CUR_C && G.parks == o.parks + 1 && G.decs == o.decs &&
          G.incs == o.incs && G.fast == o.fast && G.handoffs == o.handoffs && G.owed == o.owed && G.wakes == o.wakes && G.yields == o.yields;
 }
 /* wake (fiber_manager_wake_from_mpsc_queue): exactly the one wake I owe after a hand-off */
-static int PRE_wake(fiber_manager_t* m, mpsc_fifo_t* q, int count) { return m == &VM0 && q == &M.waiters && count == 1 && G.owed == 1; }
+static int PRE_wake(fiber_manager_t* m, mpsc_fifo_t* q, int count) { return m == CURM && q == &M.waiters && count == 1 && G.owed == 1; }
 static int POST_wake(ghost_t o, int ret) {
   return ret == 1 && G.mode == o.mode && mx_inv(CUR_C, G.a, G.mode) && G.lastc == CUR_C && G.owed == o.owed - 1 && G.wakes == o.wakes + 1 &&
          G.parks == o.parks && G.decs == o.decs && G.incs == o.incs && G.fast == o.fast && G.handoffs == o.handoffs && G.yields == o.yields;
@@ -102,7 +106,7 @@ static int POST_yield(ghost_t o) {
 #if defined(VERIF_MODE_D)
 int fiber_mutex_lock(fiber_mutex_t* mutex)
   __CPROVER_requires(mutex == &M && PRE_idle()) __CPROVER_ensures(POST_lock(__CPROVER_return_value))
-  __CPROVER_assigns(M.counter, G, VM0.lock_contention_count);
+  __CPROVER_assigns(M.counter, G, VM0.lock_contention_count, VM1.lock_contention_count);
 int fiber_mutex_trylock(fiber_mutex_t* mutex)
   __CPROVER_requires(mutex == &M && PRE_idle()) __CPROVER_ensures(POST_trylock(__CPROVER_return_value))
   __CPROVER_assigns(M.counter, G);
@@ -113,7 +117,7 @@ int fiber_mutex_unlock(fiber_mutex_t* mutex)
   __CPROVER_requires(mutex == &M && PRE_hold()) __CPROVER_ensures(POST_unlock(__CPROVER_return_value))
   __CPROVER_assigns(M.counter, G);
 /* callee contracts (park/unpark layer, DESIGN.md 4.2; enforced on the real bodies under C01) */
-fiber_manager_t* fiber_manager_get(void) __CPROVER_ensures(__CPROVER_return_value == &VM0) __CPROVER_assigns();
+fiber_manager_t* fiber_manager_get(void) __CPROVER_ensures(__CPROVER_return_value == CURM) __CPROVER_assigns();
 void fiber_manager_wait_in_mpsc_queue(fiber_manager_t* manager, mpsc_fifo_t* fifo)
   __CPROVER_requires(PRE_park(manager, fifo)) __CPROVER_ensures(POST_park(__CPROVER_old(G)))
   __CPROVER_assigns(M.counter, G);
@@ -121,30 +125,33 @@ int fiber_manager_wake_from_mpsc_queue(fiber_manager_t* manager, mpsc_fifo_t* fi
   __CPROVER_requires(PRE_wake(manager, fifo, count)) __CPROVER_ensures(POST_wake(__CPROVER_old(G), __CPROVER_return_value))
   __CPROVER_assigns(M.counter, G);
 int fiber_yield(void) __CPROVER_ensures(POST_yield(__CPROVER_old(G))) __CPROVER_assigns(M.counter, G);
+/* (not called by the unchanged code; a change that yields through a manager pointer must use the CURRENT thread's manager) */
+void fiber_manager_yield(fiber_manager_t* manager) __CPROVER_requires(manager == CURM) __CPROVER_ensures(POST_yield(__CPROVER_old(G))) __CPROVER_assigns(M.counter, G);
 #else
 /* the same callee contracts expanded by hand (mode H and native replay): assert requires, havoc, assume ensures */
-fiber_manager_t* fiber_manager_get(void) { return &VM0; }
+fiber_manager_t* fiber_manager_get(void) { return CURM; }
 void fiber_manager_wait_in_mpsc_queue(fiber_manager_t* manager, mpsc_fifo_t* fifo) {
   VASSERT(PRE_park(manager, fifo), "C: park only after announcing, on my manager and this mutex's wait list");
   ghost_t o = G;
-  G.mode = HOLD; G.parks += 1; havoc_env(); spec_snap();
+  G.mode = HOLD; G.parks += 1; havoc_env(); spec_snap(); G.curm = verif_int();
   VASSUME(POST_park(o));
 }
 int fiber_manager_wake_from_mpsc_queue(fiber_manager_t* manager, mpsc_fifo_t* fifo, int count) {
   VASSERT(PRE_wake(manager, fifo, count), "C: wake exactly once, with count 1, after a hand-off");
   ghost_t o = G;
-  G.owed -= 1; G.wakes += 1; havoc_env(); spec_snap();
+  G.owed -= 1; G.wakes += 1; havoc_env(); spec_snap(); G.curm = verif_int();
   VASSUME(POST_wake(o, 1));
   return 1;
 }
-int fiber_yield(void) { ghost_t o = G; G.yields += 1; havoc_env(); spec_snap(); VASSUME(POST_yield(o)); return FIBER_SUCCESS; }
+int fiber_yield(void) { ghost_t o = G; G.yields += 1; havoc_env(); spec_snap(); G.curm = verif_int(); VASSUME(POST_yield(o)); return FIBER_SUCCESS; }
+void fiber_manager_yield(fiber_manager_t* manager) { VASSERT(manager == CURM, "C: yield through the manager of the kernel thread the fiber is on now"); (void)fiber_yield(); }
 #endif
 
 static void init_any(void) {
   CUR_C = verif_int();
   G.a.own = verif_int(); G.a.W = verif_int(); G.a.X = verif_int();
   G.mode = verif_int();
-  G.decs = G.incs = G.fast = G.handoffs = G.owed = G.wakes = G.parks = G.yields = 0;
+  G.decs = G.incs = G.fast = G.handoffs = G.owed = G.wakes = G.parks = G.yields = 0; G.curm = 0;   /* (w.l.o.g. the call starts on thread 0) */
   spec_snap();
 }
 void h_lock(void) {
